@@ -28,9 +28,9 @@ R = Run("C05", "units = 145 table symbols, prefixed/alias names, operator-built 
         "equality decided by scale, offset and dimension only; hash equal for equal expressions in "
         "one registry; simplify()/as_coeff_unit() denote the same unit.  non-trivial = distinct "
         "(law, operands, exponents)",
-        "pairs: 145^2 (thorough) / stratified 44^2 (quick); random triples/power laws 30000 "
+        "pairs: 145^2 (thorough) / stratified 44^2 (quick); random triples/power laws 20000 "
         "(thorough) / 1500 (quick); equality: all name pairs inside each dimension group up to "
-        "400k (thorough) / 25k (quick) + pinned; simplify: 160 pinned + 20000/1500 random compounds")
+        "400k (thorough) / 25k (quick) + pinned; simplify: 160 pinned + 12000/1500 random compounds")
 
 def _driver_error(tp, val, tb):
     """an unexpected error of the driver becomes a note; the JSON line is still printed"""
@@ -414,8 +414,8 @@ def random_ent(rng, depth=0, reg=None):
         return a
 
 
-n_rand = 30000 if R.thorough else 1500
-budget = 330 if R.thorough else 30
+n_rand = 20000 if R.thorough else 1500
+budget = 240 if R.thorough else 30
 t_start = R.elapsed()
 for i in range(n_rand):
     if R.elapsed() - t_start > budget:
@@ -711,10 +711,10 @@ for t in SIMP_PINNED:
     simp_check(t)
 for t in ["kfoo/foo", "foo**2/kfoo", "foo/m", "kpc/pc", "code_mass/kg*s", "foo*code_time/afoo", "dafoo/foo*code_mass", "km/foo"]:
     simp_check(t, reg=REG1, regsrc=REG1_SRC)
-n_simp = 20000 if R.thorough else 1500
+n_simp = 12000 if R.thorough else 1500
 t_start = R.elapsed()
 for i in range(n_simp):
-    if R.elapsed() - t_start > (150 if R.thorough else 20):
+    if R.elapsed() - t_start > (120 if R.thorough else 20):
         R.notes.append("random simplify loop stopped after %d rounds (time budget)" % i)
         break
     # compounds with a good chance of cancelling symbols: names drawn from one or two dimension groups
